@@ -98,6 +98,17 @@ Theorem engine_no_panic : forall es,
 Proof. exact no_panic. Qed.
 Print Assumptions engine_no_panic.
 
+(* Obligation on the timer interface (ndn.Timer.Schedule's cancel function): cancelling never blocks and never waits for an
+   event that has already started. In the model: cancel changes at most the state of the named timers, only Sched ->
+   Cancelled, and a timer that has fired stays Fired (its closure runs later and finds its entry gone). The harness stream
+   "fire" runs exactly this schedule on the real engine and timer (EFire; EData/ENack; ERun); a cancel that waits for the
+   started event deadlocks there, because the engine cancels under the PIT lock. *)
+Theorem cancel_nonblocking : forall es ts j t, nth_error ts j = Some t ->
+  exists t', nth_error (cancel_all ts es) j = Some t' /\ tnode t' = tnode t /\ tfire t' = tfire t /\
+             (tst t = TFired -> tst t' = TFired) /\ (tst t' <> tst t -> tst t = TSched /\ tst t' = TCancelled).
+Proof. exact cancel_nonblocking_spec. Qed.
+Print Assumptions cancel_nonblocking.
+
 (* The oracle itself: ANY list of (event, observations) the checker accepts — in particular the implementation's —
    has the properties above. *)
 Theorem oracle_sound_at_most_once : forall h sp, spec_run sinit h = inl sp -> NoDup (hist_cbs h).
